@@ -93,17 +93,19 @@ type result struct {
 }
 
 type hist struct {
-	cid   int
-	kind  string
-	slow  int
-	seg   bool
-	to0   bool
-	failAt int // nbx: index of the request whose body reader fails (its write fails mid-way)
-	reqs  []*reqSpec
-	res   map[int]*result
-	got   int      // responses delivered by callbacks (nbc)
-	fails []string // oracle=name detail
-	soft  bool     // a timing-type failure (retry before reporting)
+	cid      int
+	kind     string
+	slow     int
+	seg      bool
+	to0      bool
+	failAt   int    // nbx: index of the request whose body reader fails (its write fails mid-way)
+	cliEpoll string // epoll mode of the nbhttp client engine (= the cell's)
+	cut      int    // raw: index of the response that broke off because a closing request closed the conn over a backlog (-1: none)
+	reqs     []*reqSpec
+	res      map[int]*result
+	got      int      // responses delivered by callbacks (nbc)
+	fails    []string // oracle=name detail
+	soft     bool     // a timing-type failure (retry before reporting)
 }
 
 type cellT struct {
@@ -370,7 +372,7 @@ func genHist(g *lp.Gen, cid int, thorough bool) {
 	seg := kind == "raw" && g.Chance(1, 4)
 	var sched strings.Builder
 	for i, m := 0, 4+g.Intn(40); i < m; i++ {
-		sched.WriteString(g.Pick("p", "p", "s", "w", "w", "f"))
+		sched.WriteString(g.Pick("p", "p", "s", "w", "w", "f", "h", "l"))
 	}
 	b := func(x bool) int {
 		if x {
@@ -873,6 +875,19 @@ func (h *hist) checkResponse(r *reqSpec, status int, hdr http.Header, body []byt
 	}
 }
 
+// closingAtOrAfter: index of the first request at or after i that may end the connection, -1 if none
+func (h *hist) closingAtOrAfter(i int) int {
+	for j := i; j < len(h.reqs); j++ {
+		if persist, _ := rfcPersists(h.reqs[j]); !persist || mayClose(h.reqs[j]) {
+			return j
+		}
+	}
+	return -1
+}
+
+// ltBurstCap: a little under 3 x 64 KiB (heads and TLS record overhead ride along with the bodies)
+const ltBurstCap = 3*65536 - 8192
+
 // RFC 7230 6.3 on the list syntax of 6.1 — independent of the code under test and of the Lean model
 func rfcPersists(r *reqSpec) (persist bool, inDomain bool) {
 	inDomain = true
@@ -1008,11 +1023,22 @@ func (s *server) runRaw(h *hist) {
 			// the stream ended or broke inside a response
 			endErr = err
 			res.bad = "truncated"
-			h.checkResponse(r, resp.StatusCode, resp.Header, body, res)
-			if isTimeout(err) {
+			res.answered = true
+			switch {
+			case isTimeout(err):
 				h.fail(true, "c10-order", "response to request %d incomplete after %v (%d body bytes): %v", r.rid, ioTimeout, len(body), err)
-			} else {
-				h.fail(false, "c10-order", "response to request %d broke off: %v (%d body bytes read)", r.rid, err, len(body))
+			case h.closingAtOrAfter(i) >= 0 && bytes.HasPrefix(bodyOf(h.cid, r.rid, r.sz), body) && !strings.Contains(err.Error(), "reset"):
+				// the bytes that did arrive are the right ones, then the stream ends cleanly (FIN): the server closed the
+				// connection for a closing request while this response was still (partly) in its write queue
+				c := h.closingAtOrAfter(i)
+				h.cut = i
+				h.fail(false, "c10-order", "class=close-with-backlog response to request %d broke off after %d of %d body bytes: the connection was closed for closing request %d while response bytes were still queued",
+					r.rid, len(body), r.sz, h.reqs[c].rid)
+			default:
+				h.fail(false, "c10-order", "response to request %d broke off: %v (%d of %d body bytes read)", r.rid, err, len(body), r.sz)
+				if !bytes.HasPrefix(bodyOf(h.cid, r.rid, r.sz), body) {
+					h.checkResponse(r, resp.StatusCode, resp.Header, body, res)
+				}
 			}
 			last = i
 			break
@@ -1047,7 +1073,7 @@ func (s *server) runRaw(h *hist) {
 		strings.Contains(endErr.Error(), "closed") || strings.Contains(endErr.Error(), "broken pipe") {
 		closed = true
 		// bytes behind the last complete response that do not form a response: the stream broke off inside one
-		if extra := teeLen() - mark; extra > 0 {
+		if extra := teeLen() - mark; extra > 0 && h.cut < 0 {
 			if last+1 < n && h.res[h.reqs[last+1].rid].bad == "" {
 				h.fail(false, "c10-order", "connection ended %d bytes into the response to request %d: %v", extra, h.reqs[last+1].rid, endErr)
 				h.res[h.reqs[last+1].rid].bad = "truncated"
@@ -1080,7 +1106,7 @@ func (s *server) runRaw(h *hist) {
 	}
 	// c10-close: RFC expectation per answered request
 	for i, r := range h.reqs {
-		if i > last {
+		if i > last || (h.cut >= 0 && i >= h.cut) {
 			break
 		}
 		persist, dom := rfcPersists(r)
@@ -1239,6 +1265,7 @@ func (h *hist) finishCallbacksAt(recs []*cbRec, ordered bool, from int) {
 	// the exchange of request k is healthy — the callback must get the response, not an error — as long as
 	// no earlier request of a pipelined history ended the connection (RFC rule, in-domain values only)
 	healthy := true
+	burst := 0 // response bytes that can be in flight together with the current one (since the last sync point)
 	if !ordered {
 		// pool client: it hands a connection back to the pool even after a Connection: close exchange, so requests
 		// that run concurrently with (or right after) a closing one may be written to a dying connection and fail —
@@ -1258,10 +1285,21 @@ func (h *hist) finishCallbacksAt(recs []*cbRec, ordered bool, from int) {
 		}
 		if rec := recs[i]; atomic.LoadInt32(&rec.n) >= 1 && rec.err != nil && healthy && !h.soft {
 			if _, ok := served.Load(servedKey(h.cid, r.rid)); ok {
-				h.fail(false, "c10-client-callback", "lost-response: callback of request %d got error %q although the server answered it on a healthy loopback connection (timeout0=%v)",
-					r.rid, rec.err.Error(), h.to0)
+				// classification of the one known cause that is not in the HTTP layer: in LT mode the poller reads at most
+				// MaxConnReadTimesPerEventLoop x ReadBufferSize (3 x 64 KiB) per event and then acts on EPOLLRDHUP — a burst
+				// larger than that which is followed by the peer's close loses its tail (C02, candidate defect #5)
+				class := ""
+				if persist, _ := rfcPersists(r); !persist && h.cliEpoll == "lt" && burst+r.sz > ltBurstCap {
+					class = " class=lt-burst-close"
+				}
+				h.fail(false, "c10-client-callback", "lost-response%s: callback of request %d got error %q although the server answered it on a healthy loopback connection (timeout0=%v, client epoll=%s, burst=%d)",
+					class, r.rid, rec.err.Error(), h.to0, h.cliEpoll, burst+r.sz)
 			}
 		}
+		if r.sync || !ordered {
+			burst = 0
+		}
+		burst += r.sz
 		if ordered {
 			if persist, dom := rfcPersists(r); !dom || !persist {
 				healthy = false
@@ -1589,7 +1627,7 @@ func (c *caseT) reset() {
 		for _, r := range h.reqs {
 			h.res[r.rid] = &result{cb: -1}
 		}
-		h.fails, h.soft, h.got = nil, false, 0
+		h.fails, h.soft, h.got, h.cut = nil, false, 0, -1
 	}
 }
 
@@ -1605,6 +1643,7 @@ func (c *caseT) runOnce() error {
 			continue
 		}
 		wg.Add(1)
+		h.cliEpoll = c.cell.epoll
 		go func(h *hist) {
 			defer wg.Done()
 			defer func() {
@@ -1706,8 +1745,10 @@ func runCase(e *lp.Exec, lines []string) {
 					}
 				}
 				e.P("> %s lost=%s", stripGot(line), strings.Join(append(lost, "-"), ","))
+			} else if h.kind == "raw" && h.cut >= 0 {
+				e.P("> %s cut=%d", stripGot(line), h.cut)
 			} else {
-				e.P("> %s", line)
+				e.P("> %s", stripGot(line))
 			}
 			e.P("ok")
 			e.Count("histories", h.kind)
@@ -1756,7 +1797,7 @@ func stripGot(line string) string {
 	f := strings.Fields(line)
 	out := f[:0]
 	for _, t := range f {
-		if !strings.HasPrefix(t, "got=") && !strings.HasPrefix(t, "lost=") {
+		if !strings.HasPrefix(t, "got=") && !strings.HasPrefix(t, "lost=") && !strings.HasPrefix(t, "cut=") {
 			out = append(out, t)
 		}
 	}
